@@ -192,7 +192,84 @@ def failing_progress_output(ctx):
         shutil.rmtree(d, ignore_errors=True)
 
 
+def nested_and_scoped(ctx):
+    """run returns also when it is called while a plan.scope(...) block is open, when a call function or a store's read itself
+    runs another plan with a registry, and when another thread keeps a scope of its own plan open meanwhile"""
+    import datetime as dt
+    import threading
+    uberjob = core.use_repo()
+
+    class Mem(uberjob.ValueStore):
+        def __init__(self, v=None):
+            self.v, self.t = v, (dt.datetime(2020, 1, 1) if v is not None else None)
+
+        def read(self):
+            return self.v
+
+        def write(self, v):
+            self.v, self.t = v, dt.datetime(2021, 1, 1)
+
+        def get_modified_time(self):
+            return self.t
+
+    def inner_run():
+        ip, ir = uberjob.Plan(), uberjob.Registry()
+        with ip.scope("inner"):
+            x = ip.call(lambda: 5)
+        ir.add(x, Mem())
+        return uberjob.run(ip, registry=ir, output=x, progress=None, max_workers=2)
+
+    def scenario(kind):
+        plan, reg = uberjob.Plan(), uberjob.Registry()
+        if kind == "nested-in-call":
+            with plan.scope("outer"):
+                y = plan.call(inner_run)
+                return uberjob.run(plan, output=y, progress=None, max_workers=2)
+        if kind == "nested-in-store-read":
+            class NestedStore(Mem):
+                def read(self):
+                    return inner_run()
+            with plan.scope("outer"):
+                s_ = reg.source(plan, NestedStore(1))
+                y = plan.call(lambda v: v, s_)
+                return uberjob.run(plan, registry=reg, output=y, progress=None, max_workers=2)
+        # another thread holds a scope of ITS plan open while this thread runs a plan with a registry
+        other = uberjob.Plan()
+        entered, release = threading.Event(), threading.Event()
+
+        def holder():
+            with other.scope("held"):
+                entered.set()
+                release.wait(10)
+        th = threading.Thread(target=holder, daemon=True)
+        th.start()
+        entered.wait(5)
+        try:
+            return inner_run()
+        finally:
+            release.set()
+            th.join(5)
+    for kind in ("nested-in-call", "nested-in-store-read", "other-thread-holds-a-scope"):
+        box = {}
+
+        def target():
+            try:
+                box["o"] = scenario(kind)
+            except BaseException as e:      # noqa
+                box["o"] = "raised %s: %s" % (type(e).__name__, e)
+        th = threading.Thread(target=target, daemon=True)
+        th.start()
+        th.join(15)
+        ctx.case(("c07-nested-scoped", kind))
+        if "o" not in box:
+            ctx.fail("nested:hang", "uberjob.run (%s) did not return within 15 s" % kind, {"scenario": kind})
+            return
+        if box["o"] != 5:
+            ctx.fail("nested:result", "uberjob.run (%s) gave %r instead of 5" % (kind, box["o"]), {"scenario": kind})
+
+
 def run(ctx):
+    nested_and_scoped(ctx)
     observer_threads(ctx)
     failing_progress_output(ctx)
     engine_corr.campaign(ctx, {"C07"})
